@@ -4,10 +4,12 @@
    width) so that a mutation names exactly one place of the serialized proof.                           *)
 EXTENDS Wire, Json, IOUtils, TLC
 Layers == atoi(IOEnv.WIRE_LAYERS)
+Segments == atoi(IOEnv.WIRE_SEGMENTS)
+Gkr == IOEnv.WIRE_GKR = "1"
 VARIABLE mu
-Init == mu \in AllMutations(1, Layers)
+Init == mu \in AllMutations(Segments, Layers, Gkr)
 Next == UNCHANGED mu
-G == Grammar(1, Layers)
+G == Grammar(Segments, Layers, Gkr)
 GrammarOK == /\ \A i, j \in DOMAIN G : i # j => G[i].name # G[j].name
              /\ \A i \in DOMAIN G : G[i].width \in {1, 2, 4, 8}
              /\ \E i \in DOMAIN G : G[i].name = mu.field
